@@ -8,6 +8,7 @@ import (
 	"crypto/x509"
 	"encoding/binary"
 	"encoding/json"
+	"encoding/pem"
 	"fmt"
 	"net"
 	"reflect"
@@ -39,6 +40,10 @@ type Cred struct {
 	EKU       string `json:"eku"`       // client | server-only | none
 	CN        string `json:"cn"`
 	SAN       string `json:"san"`
+	// ExtraCN, if set, appends a second, self-signed non-CA certificate with this subject to the
+	// presented chain (after the leaf that holds the key): the handshake ignores it, and so must
+	// the identity extraction.
+	ExtraCN string `json:"extra_cn,omitempty"`
 }
 
 // Case is a set of calls, each on a fresh connection.
@@ -192,6 +197,16 @@ func (d *daemon) dial(c Cred) (*grpc.ClientConn, error) {
 		// An honest Go client only presents a certificate whose issuer is among the authorities the
 		// server names in its CertificateRequest; an attacker's client presents its certificate
 		// regardless, so the harness does too.
+		if c.ExtraCN != "" {
+			extraPEM, _, err := d.otherCA.Leaf(vkit.LeafSpec{CN: c.ExtraCN, SelfSigned: true, NotBefore: time.Now().Add(-time.Hour), NotAfter: time.Now().Add(time.Hour),
+				EKU: []x509.ExtKeyUsage{x509.ExtKeyUsageClientAuth}})
+			if err != nil {
+				return nil, err
+			}
+			if blk, _ := pem.Decode(extraPEM); blk != nil {
+				pair.Certificate = append(pair.Certificate, blk.Bytes)
+			}
+		}
 		cfg.GetClientCertificate = func(*tls.CertificateRequestInfo) (*tls.Certificate, error) { return &pair, nil }
 	}
 
@@ -367,8 +382,8 @@ func class(c Cred) string {
 }
 
 type outcome struct {
-	mustRefuse, mustRefusePermittedCN, eitherServed, acceptedServed, cnSanDiffer, served int
-	trace                                                                                []string
+	mustRefuse, mustRefusePermittedCN, eitherServed, acceptedServed, cnSanDiffer, served, extraServed int
+	trace                                                                                             []string
 }
 
 func run(c *Case) (*outcome, *vkit.Violation, error) {
@@ -437,8 +452,11 @@ func run(c *Case) (*outcome, *vkit.Violation, error) {
 		} else {
 			o.acceptedServed++
 		}
-		if call.Cred.SAN != "" && call.Cred.SAN != call.Cred.CN {
+		if (call.Cred.SAN != "" && call.Cred.SAN != call.Cred.CN) || (call.Cred.ExtraCN != "" && call.Cred.ExtraCN != call.Cred.CN) {
 			o.cnSanDiffer++
+		}
+		if call.Cred.ExtraCN != "" && call.Cred.ExtraCN != call.Cred.CN {
+			o.extraServed++
 		}
 		sigs, listed, other := valuable(resp)
 		cn := call.Cred.CN
@@ -477,6 +495,9 @@ func genCred(t *rapid.T) Cred {
 		EKU:       rapid.SampledFrom([]string{"client", "client", "client", "server-only", "none"}).Draw(t, "eku"),
 		CN:        rapid.SampledFrom([]string{"alice", "alice", "bob", "carol", vkit.NodeName(1), "mallory", ""}).Draw(t, "cn"),
 		SAN:       rapid.SampledFrom([]string{"", "", "alice", "bob", vkit.NodeName(1), "mallory"}).Draw(t, "san"),
+	}
+	if c.Transport == "tls-cert" && rapid.IntRange(0, 3).Draw(t, "extra") == 0 {
+		c.ExtraCN = rapid.SampledFrom([]string{"alice", "bob", vkit.NodeName(1)}).Draw(t, "extra_cn")
 	}
 
 	return c
@@ -522,6 +543,7 @@ func TestC19(t *testing.T) {
 		vkit.S.ClassN("accepted-credential-served", o.acceptedServed)
 		vkit.S.ClassN("either-way-credential-served", o.eitherServed)
 		vkit.S.ClassN("served-calls-with-cn-and-san-differing", o.cnSanDiffer)
+		vkit.S.ClassN("served-calls-with-an-extra-certificate-naming-someone-else", o.extraServed)
 		for _, call := range c.Calls {
 			vkit.S.Class("method:" + strings.TrimPrefix(call.Method, "/v1."))
 			vkit.S.Class("cred:" + call.Cred.Transport + "/" + call.Cred.Issuer)
